@@ -6,7 +6,7 @@
    Only statements, each closed by [exact], each followed by Print Assumptions. *)
 From Coq Require Import List NArith ZArith Permutation.
 Import ListNotations.
-From GMS Require Import Sys.ProcessList Sys.ProcessListProofs Sys.C36ReadOnly.
+From GMS Require Import Sys.ProcessList Sys.ProcessListProofs Sys.C36ReadOnly Sys.C36Eval Sys.C36MemMgr.
 Open Scope N_scope.
 
 (* no step of a read-only workload changes the database value *)
@@ -48,6 +48,32 @@ Theorem C36_registry_consistent :
   (sess sp = [] -> processes s = [] /\ tc s = 0%Z /\ tr s = 0%Z).
 Proof. exact registry_consistent. Qed.
 Print Assumptions C36_registry_consistent.
+
+(* the same with an explicit evaluator (Sys/C36Eval.v): a query is a function [eval] of the database value (filter /
+   project / COUNT / SUM over a bag of rows); a session runs its queries with a cursor that reads one row of the
+   shared database per step.  In EVERY interleaving in which session i gets enough of its own steps — whatever the
+   other sessions, the process list and the counters do in between — it ends with exactly the meaning of its queries,
+   and the database is unchanged *)
+Theorem C36_readonly_sessions_compute_eval :
+  forall (g : gstate DB loc) l i qs,
+  gloc DB loc g i = mkLoc qs None [] ->
+  (length qs * (length (gdb DB loc g) + 2) <= nlocal i l)%nat ->
+  gloc DB loc (exec DB loc lstep g l) i = mkLoc [] None (map (fun q => eval q (gdb DB loc g)) qs) /\
+  gdb DB loc (exec DB loc lstep g l) = gdb DB loc g.
+Proof. exact readonly_sessions_compute_eval. Qed.
+Print Assumptions C36_readonly_sessions_compute_eval.
+
+(* the shared cache registry of the memory manager (sql/memory.go addCache / removeCache): for every interleaving in
+   which each dispose function is called once, live positions are distinct, the next position is not live,
+   NumCaches = adds - removes, and after the last disposal the registry is empty with the token back at 0 *)
+Theorem C36_cache_registry_consistent :
+  forall es, mwf minit es ->
+  let s := mrun minit es in
+  NoDup (live s) /\ ~ In (tok s + 1) (live s) /\
+  Z.of_nat (length (live s)) = (adds es - rems es)%Z /\
+  (adds es = rems es -> live s = [] /\ tok s = 0).
+Proof. exact cache_registry_consistent. Qed.
+Print Assumptions C36_cache_registry_consistent.
 
 (* non-vacuity: two sessions with two and one queries, canonical schedule: accepted by the discipline,
    registries back to the initial values *)
